@@ -95,6 +95,39 @@ CLAIMS["C04"] = claim("lean-model + harness fo (faults, cancelled contexts, key-
     "Liveness is 'enabled + bounded rank' on the machine; real goroutine fairness is the Go runtime's (trusted). Buffer aliasing is enforced by the harness only.",
     "Lean 4 proof (invariant + ranking function) + model/implementation correspondence", "DESIGN.md §6 C04")
 
+CLAIMS["C02"] = claim("lean-model + harness fo (fault injection at every backend call-out)",
+    "Lean 4 theorem C02_provenance: in every reachable state of the Get machine (any threads, schedule, configuration, variant, free "
+    "backend answers incl. read/write errors, free builder outcomes) every returned result is (v,nil) with v built for or read from the "
+    "backend under THAT key, or a non-nil error a builder/backend call for that key produced; never (nil,nil) — via a second inductive "
+    "invariant (thread-local provenance, lock records, failure cache) on top of the lock invariant. Correspondence: scheduler runs with "
+    "faults injected at random backend call-outs; monitor checks provenance of every real result from token bookkeeping.",
+    "Values/errors are opaque tokens; the harness mints them so that a token identifies (key, producer).",
+    "Lean 4 proof (inductive invariant over all interleavings and fault scripts) + model/implementation correspondence", "DESIGN.md §6 C02")
+CLAIMS["C03"] = claim("lean-model + harness fo (profile table: the complete decision table, exhaustive)",
+    "Lean 4 theorems, one per clause of the statement, about the machine run with one thread (loneGet): fresh => no build; absent => "
+    "blocking build; acceptable stale => served at once with a background build (or after the build with SyncUpdate); build failure => stale "
+    "value unless FailHard; too stale => never served while the rebuild succeeds; cached failure short-circuits; keys/values/errors/clock "
+    "universally quantified, flags case-split. Correspondence: ALL 1008 cells (3 frontend/backend pairings x entry state x failure cache x "
+    "flags x builder outcome) executed on the real code, compared with the machine and with an independently written README table.",
+    "What value accompanies a cached failure is left open by statement and theorems.",
+    "Lean 4 proof (symbolic execution of the machine per table cell) + exhaustive model/implementation correspondence", "DESIGN.md §6 C03")
+CLAIMS["C05"] = claim("lean-model + harness fo (SyncRead profile; failure-expiry bounds)",
+    "Lean 4 theorems: C05_syncread_single_flight — in composition with a well-behaved backend (a stored build result is answered as a hit) "
+    "and SyncRead, in every reachable state no non-SkipRead thread is in or heading for the builder of a key that holds a fresh build result "
+    "(third inductive invariant); failure suppression: an unexpired cached failure short-circuits the Get, the builder is only ever reached "
+    "after a failure-cache miss, FailedUpdateTTL=-1 disables both. Correspondence: real runs; monitors flag any builder invocation after a "
+    "stored fresh result (SyncRead) or after a failure within FailedUpdateTTL; the stored failure's expiry is checked against the C10 bounds.",
+    "'While the result stays fresh' = the window in which the backend constraint holds; expiry of the failure entry relies on C10.",
+    "Lean 4 proof (invariant over the composed system) + model/implementation correspondence", "DESIGN.md §6 C05")
+CLAIMS["C06"] = claim("lean-model + harness fo (TTL(ctx) recorded at every backend write, builder context inspected)",
+    "Lean 4 theorems: folding WithTTL(...,true) updates keeps the least non-zero ttl (proved about the kernel regenerated from context.go; "
+    "commutative, idempotent); the final store carries the caller's cell lowered by the builder's updates, the stale re-store carries "
+    "UpdateTTL in its own cell, the failure is cached under a reset ttl, background builds run under the detached context, SkipRead rebuilds "
+    "and stores. Correspondence: cache.TTL(ctx) observed at every real Write and compared with the machine's request; builder contexts "
+    "checked for Done/Err/Deadline/Value with caller contexts cancelled before and during the build.",
+    "context.Context semantics (values, cancellation) is the Go standard library's.",
+    "Lean 4 proof (arithmetic on the regenerated kernel + machine step lemmas) + model/implementation correspondence", "DESIGN.md §6 C06")
+
 NOT_APPLICABLE = {}
-for _p in ["C02","C03","C05","C06","C08","C16"]:
+for _p in ["C08","C16"]:
     NOT_APPLICABLE[_p] = "check under construction in this round (model slice or theorem not yet committed); will be claimed when its check exists"
